@@ -1,4 +1,12 @@
-(** C16: recoverable irregular packages open intact; non-packages are refused cleanly. *)
+(** C16: recoverable irregular packages open intact; non-packages are refused cleanly.
+    Statements only; every proof is [exact] of a lemma of proofs/Opc_proofs.v.  Same
+    model as C01 (model/Opc.v) with the well-formedness hypothesis dropped.
+
+    [open_presentation E s] models pptx.Presentation on what the physical reader hands
+    over: [SrcNotFound] (a path that is neither a directory nor a zip file), [SrcNotZip]
+    (a stream zipfile cannot read) or [SrcMembers p].  Outcomes: [ONotFound]
+    (PackageNotFoundError), [OBadZip] (BadZipFile), [OErr KeyErr | ValueErr | OtherErr]
+    (OtherErr: lxml could not parse an item), [OOk (package, main part)]. *)
 From V.lib Require Import Prelude.
 From V.model Require Import PackUri Opc OpcRun.
 From V.gen Require Import GenC01.
@@ -7,3 +15,102 @@ From V.proofs Require Import Opc_proofs.
 Theorem C16_no_unmodelled : unmodelled = [].
 Proof. reflexivity. Qed.
 Print Assumptions C16_no_unmodelled.
+
+(** every outcome of opening, and what it says about the input: nothing but the four
+    refusals of the property and lxml's parse error can come out *)
+Theorem C16_classify : forall blob (E : env blob) (s : source blob),
+  match open_presentation E s with
+  | ONotFound => s = SrcNotFound
+  | OBadZip => s = SrcNotZip
+  | OErr e => exists p, s = SrcMembers p /\ load_presentation E p = Err e /\
+                        (e = KeyErr \/ e = ValueErr \/ e = OtherErr)
+  | OOk km => exists p, s = SrcMembers p /\ load_presentation E p = Ok km
+  end.
+Proof. exact @open_classify. Qed.
+Print Assumptions C16_classify.
+
+(** each refusal has one of the listed causes, stated on the physical package:
+    KeyError: no content types item, a reached member without content type, a dangling
+    relationship of unknown TargetMode, or no officeDocument relationship (which covers a
+    missing package rels item and a missing main part);
+    ValueError: several officeDocument relationships, an external one, or a main part whose
+    content type is not a presentation type;
+    parse error: an undecodable content types item or rels item, or an XML-class part that
+    does not parse *)
+Theorem C16_refusal_causes : forall blob (E : env blob) (p : phys blob) e,
+  load_presentation E p = Err e ->
+  (e = KeyErr /\ (cause_no_ct_item p \/ cause_untyped_part E p \/ cause_dangling_other_mode E p \/
+                  exists k, load E p = Ok k /\ od_rels E k = [])) \/
+  (e = ValueErr /\ exists k, load E p = Ok k /\
+       ((exists r1 r2 l, od_rels E k = r1 :: r2 :: l) \/
+        (exists r, od_rels E k = [r] /\ l_ext r = true) \/
+        (exists r pt, od_rels E k = [r] /\ l_ext r = false /\ find_part k (l_target r) = Some pt /\
+                      mem_str (p_ct pt) (prescts E) = false))) \/
+  (e = OtherErr /\ (cause_ct_undecodable E p \/ cause_rels_undecodable E p \/ cause_xml_unparseable E p)).
+Proof. exact @load_presentation_err. Qed.
+Print Assumptions C16_refusal_causes.
+
+(** the loader alone (OpcPackage.open) fails only with KeyError or a parse error *)
+Theorem C16_load_errors : forall blob (E : env blob) (p : phys blob) e, load E p = Err e ->
+  (e = KeyErr /\ (cause_no_ct_item p \/ cause_untyped_part E p \/ cause_dangling_other_mode E p)) \/
+  (e = OtherErr /\ (cause_ct_undecodable E p \/ cause_rels_undecodable E p \/ cause_xml_unparseable E p)).
+Proof. exact @load_err. Qed.
+Print Assumptions C16_load_errors.
+
+(** a successful opening: exactly one internal officeDocument relationship, resolving to a
+    loaded part whose type is a presentation type *)
+Theorem C16_opened : forall blob (E : env blob) (p : phys blob) k main,
+  load_presentation E p = Ok (k, main) ->
+  load E p = Ok k /\ exists r, od_rels E k = [r] /\ l_ext r = false /\
+    find_part k (l_target r) = Some main /\ mem_str (p_ct main) (prescts E) = true.
+Proof. exact @load_presentation_ok. Qed.
+Print Assumptions C16_opened.
+
+(** whatever loads: one part per reached member, and every internal relationship that was
+    kept points at a loaded part (dangling ones were dropped) *)
+Theorem C16_loaded_closed : forall blob (E : env blob) (p : phys blob) k, load E p = Ok k ->
+  map p_name (k_parts k) = part_names E p /\
+  (forall r, In r (k_rels k) -> l_ext r = false -> In (l_target r) (part_names E p)) /\
+  (forall pt r, In pt (k_parts k) -> In r (p_rels pt) -> l_ext r = false ->
+                In (l_target r) (part_names E p)).
+Proof. exact @load_ok_shape. Qed.
+Print Assumptions C16_loaded_closed.
+
+(** case: the lookup depends on Default extensions and Override part names only through
+    their lower-cased form, and on the part name only through its lower-cased form *)
+Theorem C16_case_declarations : forall ds os ds' os' x,
+  low_pairs ds = low_pairs ds' -> low_pairs os = low_pairs os' ->
+  ct_lookup (ds, os) x = ct_lookup (ds', os') x.
+Proof. exact ct_lookup_case_decl. Qed.
+Print Assumptions C16_case_declarations.
+
+Theorem C16_case_part_name : forall c x y, lower x = lower y -> ct_lookup c x = ct_lookup c y.
+Proof. exact ct_lookup_case_name. Qed.
+Print Assumptions C16_case_part_name.
+
+(** ---- non-vacuity ---- *)
+
+(* the deck of C01 opens as a presentation; its main part is /ppt/presentation.xml *)
+Example C16_ex_opens :
+  match open_presentation wenv (SrcMembers ex_deck) with
+  | OOk (k, main) => p_name main = n_ppt_presentation_xml
+  | _ => False
+  end.
+Proof. vm_compute. reflexivity. Qed.
+
+(* the two-part package of C01 has no officeDocument relationship: KeyError *)
+Example C16_ex_refused_key : open_presentation wenv (SrcMembers ex_clash) = OErr KeyErr.
+Proof. vm_compute. reflexivity. Qed.
+
+Example C16_ex_refused_reader :
+  open_presentation wenv (@SrcNotFound wblob) = ONotFound /\ open_presentation wenv (@SrcNotZip wblob) = OBadZip.
+Proof. split; reflexivity. Qed.
+
+(* an empty member list: no content types item *)
+Example C16_ex_refused_empty : open_presentation wenv (SrcMembers []) = OErr KeyErr /\ cause_no_ct_item (@nil (str * wblob)).
+Proof. split; reflexivity. Qed.
+
+(* case: upper-case Override part name and Default extension in ex_deck resolve *)
+Example C16_ex_case :
+  ct_in wenv ex_deck n_ppt_slides_slide1_xml = Ok ct_slide /\ ct_in wenv ex_deck n_ppt_media_image1_png = Ok ct_png.
+Proof. vm_compute. split; reflexivity. Qed.
